@@ -117,24 +117,28 @@ BuiltEv ==
          mapOnly == \A r \in DOMAIN pk.mappings : r \in ResolvedReqs \/ (~restarted /\ r \in DOMAIN f.seeds /\ pk.mappings[r].v = f.seeds[r])
          \* --- redirects of jsr: specifiers go through the export map of the selected version
          redirected == { s \in JsrSpecs : s \in DOMAIN g.redirects }
+         \* (a requirement may be selected more than once during one build -- each pending specifier is resolved on its
+         \* own, and a later one can unify with a version selected in between; the table keeps the last selection --
+         \* so the redirect is checked against the selections made for its requirement in this build, not against the table)
          redirOk(s) ==
            LET sp == f.specs[s]
-               m == pk.mappings[sp.req]
-               vi == f.reg[m.name].versions[m.v]
+               sels == { i \in DOMAIN log : log[i].req = sp.req /\ log[i].name \in Names /\ log[i].v \in DOMAIN f.reg[log[i].name].versions }
            IN /\ sp.req \in DOMAIN pk.mappings
-              /\ sp.export \in DOMAIN vi.exports
-              /\ (vi.exports[sp.export] \in DOMAIN vi.files => redir(s) = vi.files[vi.exports[sp.export]])
+              /\ \E i \in sels : LET vi == f.reg[log[i].name].versions[log[i].v] IN
+                    /\ sp.export \in DOMAIN vi.exports
+                    /\ (vi.exports[sp.export] \in DOMAIN vi.files => redir(s) = vi.files[vi.exports[sp.export]])
          \* --- unknown export: the error lists exactly the manifest's exports
          unkOk(s) ==
            LET sp == f.specs[s]
-               m == pk.mappings[sp.req]
-               vi == f.reg[m.name].versions[m.v]
-           IN sp.req \in DOMAIN pk.mappings /\ sp.export \notin DOMAIN vi.exports /\ SeqToSet(g.slots[s].exports) = DOMAIN vi.exports
+               sels == { i \in DOMAIN log : log[i].req = sp.req /\ log[i].name \in Names /\ log[i].v \in DOMAIN f.reg[log[i].name].versions }
+           IN /\ sp.req \in DOMAIN pk.mappings
+              /\ \E i \in sels : LET vi == f.reg[log[i].name].versions[log[i].v] IN
+                    sp.export \notin DOMAIN vi.exports /\ SeqToSet(g.slots[s].exports) = DOMAIN vi.exports
          unknown == { s \in JsrSpecs : s \in DOMAIN g.slots /\ g.slots[s].k = "err" /\ g.slots[s].ek = "jsr:UnknownExport" }
          \* --- exports used per package
-         usedExports(nv) == { <<f.specs[s].export, f.reg[pk.mappings[f.specs[s].req].name].versions[pk.mappings[f.specs[s].req].v].exports[f.specs[s].export]>> :
-                              s \in { x \in redirected : f.specs[x].req \in DOMAIN pk.mappings
-                                        /\ NvStr(pk.mappings[f.specs[x].req].name, pk.mappings[f.specs[x].req].v) = nv } }
+         \* exports used per package version: by the registry file each redirected jsr: specifier ended at
+         usedExports(nv) == { <<f.specs[s].export, f.owner[redir(s)].path>> :
+                              s \in { x \in redirected : redir(x) \in DOMAIN f.owner /\ NvStr(f.owner[redir(x)].name, f.owner[redir(x)].v) = nv } }
          exportsOk == \A nv \in DOMAIN pk.exports :
                          { <<k, pk.exports[nv][k]>> : k \in DOMAIN pk.exports[nv] } = { <<p[1], "." \o p[2]>> : p \in usedExports(nv) }
          \* --- requirements imported by the modules of a package are attributed to that package
